@@ -428,6 +428,9 @@ def scripted_asgi(counter, events, err):
     # a later piece of even length by count alone (it starts where the descriptor stands after the previous piece)
     shared = len(zdata) >= 2 and sum(len(d) for d in zdata) % 2 == 0
     state = {"fd": None, "pos": 2, "k": 0}
+    bdata = [ev[1] for ev in events if ev[0] == "b" and ev[1] is not None]
+    reuse_buffer = len(bdata) >= 2 and sum(len(d) for d in bdata) % 3 == 0      # every third multi-chunk script
+    reuse_buf = bytearray()
 
     async def app(scope, receive, send):
         counter.n += 1
@@ -457,7 +460,13 @@ def scripted_asgi(counter, events, err):
                 elif ev[0] == "b":
                     msg = {"type": "http.response.body"}
                     if ev[1] is not None:
-                        msg["body"] = ev[1]
+                        if reuse_buffer:
+                            # the application fills ONE buffer again and again (a read-into loop) and hands it to send():
+                            # what was sent is what the buffer held when send() was called
+                            reuse_buf[:] = ev[1]
+                            msg["body"] = reuse_buf
+                        else:
+                            msg["body"] = ev[1]
                     if ev[2] is not None:
                         msg["more_body"] = ev[2]
                 elif ev[0] == "z":
@@ -481,6 +490,8 @@ def scripted_asgi(counter, events, err):
                 else:
                     msg = {"type": "http.response.debug"}
                 await send(msg)
+                if reuse_buffer and ev[0] == "b":
+                    reuse_buf[:] = b"#" * len(reuse_buf)
             if err:
                 raise exc_class(err)("scripted")
         finally:
